@@ -446,6 +446,7 @@ pub fn submit_race_oracle(c: &RaceCase) -> Verdict {
     let env = build_env(&spec, hash_of(&format!("{c:?}"))).map_err(|m| bad("harness_env", m))?;
     let session = Arc::clone(&env.session);
     let mock = &env.mock;
+    mock.set_frame_logging(false);
     let stop = Arc::new(AtomicBool::new(false));
     let issued = Arc::new(AtomicU64::new(0));
     let completed = Arc::new(AtomicU64::new(0));
@@ -545,7 +546,7 @@ pub fn run(ctx: &Ctx, rep: &mut Report) {
     finish_direct(rep, "saturated", st, fails, false);
     // requests handed to connections at the instant they die (many environments in parallel: the window is narrow)
     {
-        let rounds = ctx.tier.pick(250u16, 3_000);
+        let rounds = ctx.tier.pick(250u16, 2_000);
         let cases: Vec<RaceCase> = (0..2 * ncpu()).map(|i| RaceCase { conns: [1u8, 2, 4, 8][i % 4], rounds, rst: i % 2 == 0 }).collect();
         let results: Vec<(Stats, Vec<(String, String, serde_json::Value)>)> = std::thread::scope(|sc| {
             let hs: Vec<_> = cases
